@@ -66,6 +66,10 @@ def run(case, env):
     history.set_tip(br, spec, tip)
     for t, r in case["tags"].items():
         br.tags.set_tag(t, bz.enc(r))
+    if case.get("ghost_tag"):
+        # a tag on a revision that is not in the repository points at no
+        # removed revision: it stays whatever is uncommitted
+        br.tags.set_tag("tghost", b"not-present-rev")
     master_path = None
     if case["bound"]:
         master_path = d + "/m"
@@ -91,24 +95,47 @@ def run(case, env):
     labels = []
     # ---- (a) commit + uncommit round trip
     wt = workingtree.WorkingTree.open(path)
+    rt_local = bool(case.get("rt_local")) and bool(master_path)
     wt.commit("x", rev_id=b"new-rev", timestamp=bz.T0 + 99999, timezone=0,
-              committer=bz.COMMITTER, allow_pointless=True)
+              committer=bz.COMMITTER, allow_pointless=True, local=rt_local)
     mid = observe(path)
     check(mid["tip"] == [before["tip"][0] + 1, "new-rev"],
           "C16/commit-did-not-advance", [before["tip"], mid["tip"]])
+    if master_path and rt_local:
+        mb = _branch.Branch.open(master_path)
+        check(mb.last_revision().decode() == tip,
+              "C16/local-commit-moved-master",
+              [mb.last_revision().decode(), tip])
+    rt_keep = bool(case.get("rt_keep"))
+    want_tags = dict(before["tags"])
+    if case.get("rt_tag"):
+        # a tag that points only at the revision about to be removed
+        _branch.Branch.open(path).tags.set_tag("tnew", b"new-rev")
+        if rt_keep:
+            want_tags["tnew"] = "new-rev"
     wt = workingtree.WorkingTree.open(path)
-    _unc.uncommit(wt.branch, tree=wt)
+    _unc.uncommit(wt.branch, tree=wt, local=rt_local, keep_tags=rt_keep)
     after = observe(path)
-    for k in ("tip", "parents", "changes", "fs", "tags"):
+    for k in ("tip", "parents", "changes", "fs"):
         check(after[k] == before[k], "C16/round-trip-%s-differs" % k,
               {"before": before[k], "after": after[k]})
+    check(after["tags"] == want_tags,
+          "C16/round-trip-tags-differs" if not case.get("rt_tag") else
+          ("C16/round-trip-kept-tag-lost" if rt_keep else
+           "C16/round-trip-tag-on-removed-revision-not-as-specified"),
+          {"before": before["tags"], "after": after["tags"],
+           "want": want_tags, "keep": rt_keep})
     if master_path:
         mb = _branch.Branch.open(master_path)
         check(mb.last_revision().decode() == tip,
               "C16/round-trip-master-tip-differs",
-              [mb.last_revision().decode(), tip])
+              [mb.last_revision().decode(), tip, rt_local])
     if len(before["parents"]) > 1:
         labels.append("round-trip-with-pending-merges")
+    if case.get("rt_tag") and not rt_keep:
+        labels.append("round-trip-drops-tag")
+    if rt_local:
+        labels.append("round-trip-local")
     # ---- (b) uncommit to a depth
     wt = workingtree.WorkingTree.open(path)
     wt.set_parent_ids([bz.enc(tip)])
@@ -125,12 +152,90 @@ def run(case, env):
               {"pre": pre, "post": post})
         return ok("dry-run") if labels or depth > 1 else trivial()
     local = case["local"] and bool(master_path)
-    if case.get("no_tree"):
+    no_tree = bool(case.get("no_tree"))
+
+    def master_tip():
+        return _branch.Branch.open(master_path).last_revision().decode()
+
+    def master_tags():
+        return {k: v.decode() for k, v in _branch.Branch.open(
+            master_path).tags.get_tag_dict().items()}
+
+    def check_master_tags(master_pre, newtip, gone):
+        """Tags of the master of a bound branch (checked last: the search
+        goes on behind the open finding for local=True)."""
+        now = master_tags()
+        if local:
+            # nothing is removed from the master: every tag there still points
+            # at a revision the master keeps
+            check(now == master_pre,
+                  "C16/local-uncommit-deletes-tags-in-the-master",
+                  {"before": master_pre, "after": now, "tip": tip,
+                   "depth": depth})
+            return
+        left = anc - (gm.ancestry(g, newtip) if newtip != "null:" else set())
+        for k, v in sorted(master_pre.items()):
+            if keep or v not in left:
+                check(now.get(k) == v,
+                      "C16/master-tag-on-kept-revision-dropped",
+                      [k, v, master_pre, now])
+            elif v in gone:
+                check(k not in now, "C16/master-tag-on-removed-revision-kept",
+                      [k, v, master_pre, now])
+        check(set(now) <= set(master_pre), "C16/master-got-new-tags",
+              [master_pre, now])
+
+    if case.get("local_unbound") and not master_path:
+        # local=True needs a bound branch: documented refusal, nothing changes
+        wt = workingtree.WorkingTree.open(path)
+        try:
+            _unc.uncommit(wt.branch, tree=None if no_tree else wt, revno=revno,
+                          keep_tags=keep, local=True)
+            check(False, "C16/local-uncommit-on-unbound-branch-accepted",
+                  [tip, depth])
+        except errors.LocalRequiresBoundBranch:
+            pass
+        check(observe(path) == pre,
+              "C16/refused-local-uncommit-changed-something",
+              {"pre": pre, "post": observe(path)})
+        labels.append("refused:LocalRequiresBoundBranch")
+    mtip = tip
+    if master_path and case.get("master_moved") and len(lh) >= 2:
+        # the master is somewhere else than the local branch
+        mtip = lh[-2]
+        mb = _branch.Branch.open(master_path)
+        mb.set_last_revision_info(len(lh) - 1, bz.enc(mtip))
+        if not local:
+            mtags = master_tags()
+            wt = workingtree.WorkingTree.open(path)
+            try:
+                _unc.uncommit(wt.branch, tree=None if no_tree else wt,
+                              revno=revno, keep_tags=keep)
+                check(False, "C16/uncommit-accepted-although-master-differs",
+                      [tip, mtip, depth])
+            except errors.BoundBranchOutOfDate:
+                pass
+            post = observe(path)
+            check(post == pre and master_tip() == mtip and
+                  master_tags() == mtags,
+                  "C16/refused-uncommit-changed-something",
+                  {"pre": pre, "post": post, "master": master_tip()})
+            return ok("+".join(sorted(set(
+                labels + ["refused:BoundBranchOutOfDate"]))))
+    master_pre = master_tags() if master_path else None
+    # one call, or the same depth in two calls on the same long-lived objects
+    revnos = [revno]
+    if case.get("split") and depth >= 2:
+        d1 = 1 + (case["split"] - 1) % (depth - 1)
+        revnos = [len(lh) - d1 + 1, revno]
+        labels.append("two-calls-on-one-object")
+    if no_tree:
         # uncommit on the branch alone (as for a treeless branch): nothing is
         # re-recorded anywhere, so every revision that leaves the branch's
         # ancestry takes its tags with it
         b = _branch.Branch.open(path)
-        _unc.uncommit(b, tree=None, revno=revno, keep_tags=keep, local=local)
+        for rn_ in revnos:
+            _unc.uncommit(b, tree=None, revno=rn_, keep_tags=keep, local=local)
         b = _branch.Branch.open(path)
         newtip = lh[len(lh) - depth - 1] if depth < len(lh) else "null:"
         rn, rt = b.last_revision_info()
@@ -144,20 +249,32 @@ def run(case, env):
               [tip, depth, keep, pre["tags"], got_tags, exp_tags, "no tree"])
         check(bz.snapshot_fs(path) == pre["fs"], "C16/uncommit-modified-files",
               None)
+        if master_path:
+            mt = master_tip()
+            if local:
+                check(mt == mtip, "C16/local-uncommit-moved-master",
+                      [mt, mtip, "no tree"])
+            else:
+                check(mt == newtip, "C16/master-not-in-step-after-uncommit",
+                      [mt, newtip, "no tree"])
+        if master_path:
+            check_master_tags(master_pre, newtip, gone)
         merged = [p for r in lh[len(lh) - depth:] for p in g[r][1:]]
         if merged or len(exp_tags) < len(pre["tags"]):
             labels.append("no-tree" + ("+tag-dropped" if len(exp_tags) <
                                        len(pre["tags"]) else ""))
         return ok("+".join(sorted(set(labels)))) if labels else trivial()
     wt = workingtree.WorkingTree.open(path)
-    _unc.uncommit(wt.branch, tree=wt, revno=revno, keep_tags=keep, local=local)
+    b = wt.branch
+    for rn_ in revnos:
+        _unc.uncommit(b, tree=wt, revno=rn_, keep_tags=keep, local=local)
     post = observe(path)
     newtip = lh[len(lh) - depth - 1] if depth < len(lh) else "null:"
     removed = lh[len(lh) - depth:]
     detail = {"tip": tip, "depth": depth, "removed": removed,
               "got": post["tip"], "parents": post["parents"],
               "tags_before": pre["tags"], "tags_after": post["tags"],
-              "keep": keep}
+              "keep": keep, "revnos": revnos}
     check(post["tip"] == [len(lh) - depth, newtip],
           "C16/depth-tip-or-revno-wrong", detail)
     ps = post["parents"]
@@ -187,13 +304,14 @@ def run(case, env):
     check(post["tags"] == exp_tags, "C16/tags-not-as-specified",
           [detail, exp_tags, sorted(gone)])
     if master_path:
-        mb = _branch.Branch.open(master_path)
-        mt = mb.last_revision().decode()
+        mt = master_tip()
         if local:
-            check(mt == tip, "C16/local-uncommit-moved-master", [mt, tip])
+            check(mt == mtip, "C16/local-uncommit-moved-master", [mt, mtip])
         else:
             check(mt == newtip, "C16/master-not-in-step-after-uncommit",
                   [mt, newtip])
+    if master_path:
+        check_master_tags(master_pre, newtip, gone)
     if exp_merged:
         labels.append("merge-removed" if depth == 1 else
                       "depth-crossing-merge")
@@ -214,7 +332,11 @@ def cases(draw, n_max=10):
     names = draw(st.lists(st.sampled_from(["t0", "t1", "t2", "t3"]),
                           unique=True, max_size=4))
     tags = {t: draw(st.sampled_from(ids)) for t in names}
-    bound = draw(st.sampled_from([False] * 4 + [True]))
+    if names and draw(st.sampled_from([False, False, False, True])):
+        # several tags on one revision (the reverse tag dictionary has lists)
+        one = draw(st.sampled_from(ids))
+        tags = dict.fromkeys(names, one)
+    bound = draw(st.sampled_from([False] * 3 + [True] * 2))
     g = history.graph_of(spec, ghosts=False)
     anc = gm.ancestry(g, tip)
     # pending merges: heads among the revisions not yet merged into the tip
@@ -233,7 +355,19 @@ def cases(draw, n_max=10):
             "keep_tags": draw(st.sampled_from([False, False, True])),
             "dry_run": draw(st.sampled_from([False] * 11 + [True])),
             "bound": bound, "local": bound and draw(st.booleans()),
-            "no_tree": draw(st.sampled_from([False, False, False, True]))}
+            "no_tree": draw(st.sampled_from([False, False, False, True])),
+            # round trip: local commit + local uncommit in a bound branch; a
+            # tag set on the new revision; keep_tags for the round trip
+            "rt_local": bound and draw(st.sampled_from([False, False, True])),
+            "rt_tag": draw(st.booleans()),
+            "rt_keep": draw(st.sampled_from([False, False, True])),
+            # the depth in two calls on one branch / tree object (0 = one call)
+            "split": draw(st.sampled_from([0, 0, 1, 2, 3])),
+            "master_moved": bound and draw(st.sampled_from(
+                [False, False, True])),
+            "local_unbound": (not bound) and draw(st.sampled_from(
+                [False, False, False, True])),
+            "ghost_tag": draw(st.sampled_from([False, False, True]))}
 
 
 def kinds(tier):
